@@ -12,3 +12,7 @@ out = {k: {"sig": b.j.get("sig"), "argc": b.argc} for k, b in sorted(F.bodies.it
 p = os.path.join(os.path.dirname(os.path.dirname(os.path.abspath(__file__))), "reference", "fnnames.json")
 json.dump(out, open(p, "w"), indent=0)
 print("frozen %d function signatures" % len(out))
+consts = {k: {"ty": v.get("ty"), "v": json.dumps(v.get("v"), sort_keys=True)} for k, v in sorted(F.consts.items())}
+p2 = os.path.join(os.path.dirname(p), "constnames.json")
+json.dump(consts, open(p2, "w"), indent=0)
+print("frozen %d constants" % len(consts))
